@@ -1117,6 +1117,11 @@ def simplify_proj(e):
         comp = e[1][2][e[2][0]]
         rest = e[2][1:]
         return simplify_proj(("proj", comp, rest)) if rest else comp
+    # `*&x` -> x (match guards bind by reference: `(radix, base) if radix != base` compares `*&t.0` with `*&t.1`)
+    if e[0] == "proj" and isinstance(e[1], tuple) and e[1] and e[1][0] == "ref" and e[2] and e[2][0] == "*":
+        rest = e[2][1:]
+        inner = e[1][1]
+        return simplify_proj(("proj", inner, rest)) if rest else inner
     return e
 
 
